@@ -13,7 +13,7 @@ import json
 import os
 import vlib
 
-MC_ACTIONS = ["KeyGen", "UpdateOk", "UpdateFail", "Sign", "Verify"]
+MC_ACTIONS = ["FirstKeyGen", "UpdateOk", "UpdateFail", "Sign", "Verify"]
 
 
 def model_check(ctx):
